@@ -27,7 +27,7 @@ var (
 		"failure-not-reported", "error-without-failure", "wrong-failure-returned", "event-after-return", "stray-event"}
 	clContain = []string{"api-panic", "goroutine-panic", "deadlock", "hang", "sync-misuse"}
 	clResult  = []string{"result-map"}
-	clLocals  = []string{"unassigned-local-visible", "local-changed-by-other-execution", "local-lost", "shared-injected-not-visible"}
+	clLocals  = []string{"unassigned-local-visible", "local-changed-by-other-execution", "local-lost", "shared-injected-not-visible", "local-update-changed-injected-data"}
 	clRuleSet = []string{"ruleset-extra-rule", "ruleset-wrong-version", "ruleset-wrong-salience", "ruleset-order", "ruleset-duplicate", "ruleset-missing-rule", "ruleset-wrong-metadata",
 		"exist-query-disagrees", "mgmt-panic", "invalid-text-accepted", "valid-operation-rejected"}
 	clConc    = []string{"conc-child-count", "conc-join", "conc-error-lost", "conc-next-statement-missing", "conc-assignment-lost", "event-after-return"}
@@ -117,7 +117,7 @@ var (
 	ProfC15 = &Profile{
 		Methods:  cat(allEngineMethods, rep(MDAG, 3), rep(MConcurrent, 2)),
 		MinRules: 2, MaxRules: 6, SalSpan: 2,
-		Secs:    map[int]int{SecY: 3, SecLocal: 5, SecReader: 2, SecCall: 1, SecIfKind: 1, SecIfIdx: 1, SecForKind: 1, SecAsgKind: 1, SecShW: 2, SecShR: 2, SecRangeKey: 3, SecLocObj: 3, SecLocObjReader: 1},
+		Secs:    map[int]int{SecY: 3, SecLocal: 5, SecReader: 2, SecCall: 1, SecIfKind: 1, SecIfIdx: 1, SecForKind: 1, SecAsgKind: 1, SecShW: 2, SecShR: 2, SecRangeKey: 3, SecLocObj: 3, SecLocObjReader: 1, SecLocAlias: 3},
 		MaxSecs: 3, Rets: []int{RetNone, RetNestedV},
 		FaultPct: 40, GatePct: 30, RetPct: 50, MinCalls: 4, MaxCalls: 14, UnknownNamePct: 10, BadNMPct: 5,
 	}
